@@ -254,6 +254,7 @@ fn start_tls_with(log: &EvLog, mode: HandlerTaskMode, body_max: usize) -> Result
     let mut api = echo_api(&[]);
     api.register(ws_echo).map_err(|e| e.to_string())?;
     api.register(ws_burst).map_err(|e| e.to_string())?;
+    api.register(h_big).map_err(|e| e.to_string())?;
     let b = ServerBuilder::new(api, ctx, discard_logger()).config(config).tls(Some(tls));
     let server = rt.block_on(async move { b.start() }).map_err(|e| format!("start: {e}"))?;
     let addr = server.local_addr();
@@ -932,6 +933,171 @@ fn burst_round(rep: &mut Report, rng: &mut Rng, addr: SocketAddr, cfg: &Arc<rust
     }
 }
 
+// ------------------------------------------------------------------ C15 over TLS
+
+#[derive(serde::Deserialize, serde::Serialize, schemars::JsonSchema, Clone, Debug)]
+struct BigScan {
+    tag: Option<String>,
+}
+#[derive(serde::Deserialize, serde::Serialize, schemars::JsonSchema, Clone, Debug)]
+struct BigSel {
+    last: u32,
+}
+#[derive(serde::Serialize, schemars::JsonSchema)]
+struct BigItem {
+    id: u32,
+    blob: String,
+}
+const BIG_N: u32 = 210;
+
+fn big_blob(id: u32) -> String {
+    let mut x = u64::from(id).wrapping_mul(0x9E37_79B9_7F4A_7C15) | 1;
+    (0..2000)
+        .map(|_| {
+            x = x.wrapping_mul(6364136223846793005).wrapping_add(1442695040888963407);
+            (b'a' + ((x >> 40) % 26) as u8) as char
+        })
+        .collect()
+}
+
+/// a collection of 210 items of 2 kB each: the default page (100 items) is 200 kB
+#[dropshot::endpoint { method = GET, path = "/big" }]
+async fn h_big(
+    rqctx: RequestContext<vmon::srv::C>,
+    q: dropshot::Query<dropshot::PaginationParams<BigScan, BigSel>>,
+) -> Result<dropshot::HttpResponseOk<dropshot::ResultsPage<BigItem>>, dropshot::HttpError> {
+    let p = q.into_inner();
+    let limit = rqctx.page_limit(&p)?.get();
+    let start = match &p.page {
+        dropshot::WhichPage::First(_) => 0,
+        dropshot::WhichPage::Next(s) => s.last + 1,
+    };
+    let end = BIG_N.min(start.saturating_add(limit));
+    let items: Vec<BigItem> = (start..end).map(|id| BigItem { id, blob: big_blob(id) }).collect();
+    Ok(dropshot::HttpResponseOk(dropshot::ResultsPage::new(items, &BigScan { tag: None }, |it: &BigItem, _: &BigScan| BigSel { last: it.id })?))
+}
+
+/// C15 over HTTPS with a client like a remote one: small receive buffer, small
+/// segments, one keep-alive connection per scan.
+fn run_c15(seed: u64, rounds: usize) -> Report {
+    let mut rep = Report::new(
+        "C15",
+        "E2-tls-scan",
+        "an HTTPS server (both task modes) with a paginated collection of 210 items of 2 kB; per scan one keep-alive TLS connection          whose socket has a 4-16 KiB receive buffer and a 1460-byte MSS (a reader no faster than the writer), limit in {7, 60, default          100, 250}; every page must arrive completely (20 s watchdog per page; on expiry a fresh TLS health probe decides: healthy server          + undelivered page = violation), the concatenation of the pages is items 0..210 in order with intact content, page <= limit,          and the scan ends with a page without token; class = (limit, receive buffer, mode)",
+    );
+    let cfg = client_config();
+    for mode in [HandlerTaskMode::Detached, HandlerTaskMode::CancelOnDisconnect] {
+        let log = EvLog::new();
+        let srv = match start_tls_with(&log, mode, 4096) {
+            Ok(s) => s,
+            Err(e) => {
+                rep.inconclusive(&format!("tls server start: {e}"));
+                continue;
+            }
+        };
+        let mode_tag = if matches!(mode, HandlerTaskMode::Detached) { "det" } else { "cod" };
+        let mut verdict = false;
+        for r in 0..rounds {
+            if verdict {
+                break;
+            }
+            let mut rng = Rng::derive(seed, "c15-tls", if mode_tag == "det" { 0 } else { 1 }, r as u64);
+            // (the first scans of a run are the ones with whole 200 kB pages)
+            let limit: Option<u32> = if r < 2 { [None, Some(250)][r] } else { *rng.pick(&[Some(7), Some(60), None, Some(250)]) };
+            let rcvbuf: libc::c_int = if r < 2 { 4096 } else { *rng.pick(&[4096, 16384]) };
+            let eff = limit.unwrap_or(100);
+            let Ok((mut c, hello)) = TlsClient::connect(srv.addr, &cfg) else {
+                rep.inconclusive("connect");
+                continue;
+            };
+            {
+                use std::os::fd::AsRawFd;
+                let mss: libc::c_int = 1460;
+                unsafe {
+                    libc::setsockopt(c.sock.as_raw_fd(), libc::SOL_SOCKET, libc::SO_RCVBUF, &rcvbuf as *const _ as *const libc::c_void, 4);
+                    libc::setsockopt(c.sock.as_raw_fd(), libc::IPPROTO_TCP, libc::TCP_MAXSEG, &mss as *const _ as *const libc::c_void, 4);
+                }
+            }
+            if c.sock.write_all(&hello).is_err() {
+                rep.inconclusive("hello write");
+                continue;
+            }
+            rep.eval(format!("scan|limit{}|rcvbuf{rcvbuf}|{mode_tag}", limit.map(|l| l.to_string()).unwrap_or_else(|| "default".into())));
+            let wit = |extra: serde_json::Value| json!({"seed": seed, "round": r, "mode": mode_tag, "transport": "tls", "limit": limit, "client_rcvbuf": rcvbuf, "detail": extra});
+            let mut next: Option<String> = None;
+            let mut got: Vec<u32> = vec![];
+            let mut pages = 0;
+            loop {
+                let mut target = "/big".to_string();
+                let mut qs = vec![];
+                if let Some(t) = &next {
+                    qs.push(format!("page_token={}", t.replace('=', "%3D")));
+                }
+                if let Some(l) = limit {
+                    qs.push(format!("limit={l}"));
+                }
+                if !qs.is_empty() {
+                    target = format!("/big?{}", qs.join("&"));
+                }
+                let resp = match c.request(&Req::new("GET", &target).uid(next_uid()).encode(), Duration::from_secs(20)) {
+                    Ok(r) => r,
+                    Err(e) => {
+                        // bounded progress: is the server alive for somebody else right now?
+                        match health(srv.addr, &cfg, Duration::from_secs(20)) {
+                            Ok(_) => {
+                                verdict = true;
+                                rep.violate(
+                                    "C15:tls:page-not-delivered-to-a-slow-reader",
+                                    wit(json!({"page": pages, "items_so_far": got.len(), "error": e,
+                                               "control": "a fresh TLS connection was served meanwhile"})),
+                                );
+                            }
+                            Err(_) => rep.inconclusive("page not delivered and the control probe failed too"),
+                        }
+                        break;
+                    }
+                };
+                pages += 1;
+                let Some(j) = resp.json() else {
+                    rep.violate("C15:tls:page-is-not-json", wit(json!({"status": resp.status, "page": pages})));
+                    break;
+                };
+                if resp.status != 200 {
+                    rep.violate(format!("C15:tls:page-request-refused:status-{}", resp.status), wit(json!({"page": pages, "body": j})));
+                    break;
+                }
+                let items = j["items"].as_array().cloned().unwrap_or_default();
+                if items.len() as u32 > eff {
+                    rep.violate("C15:tls:page-longer-than-effective-limit", wit(json!({"page": pages, "items": items.len()})));
+                }
+                for it in &items {
+                    let id = it["id"].as_u64().unwrap_or(u64::MAX) as u32;
+                    if it["blob"].as_str() != Some(big_blob(id).as_str()) {
+                        rep.violate("C15:tls:item-content-altered", wit(json!({"page": pages, "id": id})));
+                    }
+                    got.push(id);
+                }
+                next = j["next_page"].as_str().map(|s| s.to_string());
+                if next.is_none() || pages > 200 {
+                    break;
+                }
+            }
+            if verdict {
+                break;
+            }
+            let want: Vec<u32> = (0..BIG_N).collect();
+            if next.is_none() && pages > 0 && got != want && !got.is_empty() {
+                rep.violate("C15:tls:scan-is-not-the-collection", wit(json!({"pages": pages, "items": got.len(), "first_ids": got.iter().take(5).collect::<Vec<_>>()})));
+            } else if got == want {
+                rep.count("tls_scans_complete", 1);
+                rep.count("tls_pages", pages as u64);
+            }
+        }
+        drop(srv);
+    }
+    rep
+}
+
 fn own_listen_inode(port: u16) -> Option<u64> {
     let tcp = std::fs::read_to_string("/proc/self/net/tcp").ok()?;
     let want = format!(":{:04X}", port);
@@ -1374,6 +1540,7 @@ fn main() {
         "c09-tls-h2" => run_c09_h2(seed, if quick { 60 } else { 3000 }),
         "c20-tls" => run_c20(seed, if quick { 60 } else { 3000 }),
         "c17-tls" => run_c17(seed, if quick { 30 } else { 800 }),
+        "c15-tls" => run_c15(seed, if quick { 2 } else { 40 }),
         "c16-tls" => run_c16(seed, if quick { 60 } else { 2500 }),
         _ => {
             eprintln!("usage: vmon_tls c18-tls|c09-tls|c20-tls|c17-tls --seed N --tier T --out F");
